@@ -391,6 +391,9 @@ def gen_spec(seed: int, config: str | None = None) -> dict:
     # payload lists as callers really have them: the same payload object listed twice, two payloads that compare equal,
     # two different payloads that name the same path (a file processed under two option sets).  "One result per payload"
     # is per list entry.  Drawn from a stream of its own so that the rest of the spec stays what it was.
+    tk = random.Random(derive(seed, "think"))
+    if tk.random() < 0.05:
+        spec["knobs"]["consumer_think_ns"] = tk.choice([10**9, 600 * 10**9, 2400 * 10**9, 7200 * 10**9])  # 1 s .. 2 h per result
     cb = random.Random(derive(seed, "bodies"))
     if pool == "thread" and cb.random() < 0.6:
         spec["knobs"]["concurrent_bodies"] = cb.choice([2, 4, 4, 10])  # mean number of lines a body runs before another may
@@ -778,6 +781,9 @@ def run(spec: dict, decider: Decider, keep_events: bool = False) -> RunResult:
         env.relevant = lambda code: code.co_filename == task_py or (code.co_filename == __file__ and code.co_name == "work")
         sim.probe("thread_pool_bodies_interleaved")
     limit_before = sys.getrecursionlimit()
+    think_ns = spec["knobs"].get("consumer_think_ns", 0)
+    if think_ns:
+        sim.probe("slow_consumer")
     try:
         with patched(env, spec, sim):
             if spec.get("earlier"):
@@ -787,6 +793,8 @@ def run(spec: dict, decider: Decider, keep_events: bool = False) -> RunResult:
                 it = iter(gen)
                 while True:
                     env.tick("consumer")
+                    if think_ns and got:
+                        sim.now_ns += think_ns  # the consumer works on what it was handed (writes a report, asks a person)
                     try:
                         r = next(it)
                     except StopIteration:
@@ -993,6 +1001,10 @@ def shrink_candidates(spec: dict):
     if spec["knobs"].get("fresh_worker_state"):
         s = copy.deepcopy(spec)
         s["knobs"]["fresh_worker_state"] = False
+        yield s
+    if spec["knobs"].get("consumer_think_ns"):
+        s = copy.deepcopy(spec)
+        del s["knobs"]["consumer_think_ns"]
         yield s
     for i, p in enumerate(ps):
         if p.get("deep"):
